@@ -88,9 +88,12 @@ pub fn opt_num(c: Option<u32>) -> String { c.map(|c| c.to_string()).unwrap_or("N
 pub struct RefStore {
     pub items: Vec<Passkey>,
     pub disc: fn() -> DiscoverabilitySupport,
+    /// answer a lookup that matches nothing with an empty list instead of `NoCredentials` (the contract allows both)
+    pub empty_ok: bool,
 }
 impl RefStore {
-    pub fn new(disc: fn() -> DiscoverabilitySupport) -> Self { RefStore { items: vec![], disc } }
+    pub fn new(disc: fn() -> DiscoverabilitySupport) -> Self { RefStore { items: vec![], disc, empty_ok: false } }
+    pub fn new_empty_ok(disc: fn() -> DiscoverabilitySupport) -> Self { RefStore { items: vec![], disc, empty_ok: true } }
 }
 #[async_trait]
 impl CredentialStore for RefStore {
@@ -99,7 +102,7 @@ impl CredentialStore for RefStore {
         let v: Vec<Passkey> = self.items.iter()
             .filter(|p| p.rp_id == rp_id && ids.map_or(true, |l| l.iter().any(|d| d.id == p.credential_id)))
             .cloned().collect();
-        if v.is_empty() { Err(Ctap2Error::NoCredentials.into()) } else { Ok(v) }
+        if v.is_empty() && !self.empty_ok { Err(Ctap2Error::NoCredentials.into()) } else { Ok(v) }
     }
     async fn save_credential(&mut self, cred: Passkey, _u: PublicKeyCredentialUserEntity, _r: PublicKeyCredentialRpEntity, _o: Options) -> Result<(), StatusCode> {
         self.items.retain(|p| p.credential_id != cred.credential_id);
@@ -147,6 +150,7 @@ impl<S: CredentialStore<PasskeyItem = Passkey> + Send + Sync> CredentialStore fo
         if let Some(e) = self.next_fault() { push(&self.log, format!("{}:err:{}", head, e)); return Err(StatusCode::from(e)); }
         let r = self.inner.find_credentials(ids, rp_id).await;
         match r {
+            Ok(v) if v.is_empty() => { push(&self.log, format!("{}:err:{}", head, 0x2E)); Ok(v) }   // "nothing found", said with an empty list
             Ok(v) => { push(&self.log, format!("{}:ok:{}", head, if v.is_empty() { "E".to_string() } else { v.iter().map(|p| hexs(&p.credential_id)).collect::<Vec<_>>().join(",") })); Ok(v) }
             Err(e) => { let b = u8::from(e); push(&self.log, format!("{}:err:{}", head, b)); Err(StatusCode::from(b)) }
         }
